@@ -18,11 +18,27 @@ struct Sink {
     events: u64,
 }
 
+/// process-wide capture (all threads), used by the FFI checks whose library threads are not ours
+static GLOBAL_ON: std::sync::atomic::AtomicBool = std::sync::atomic::AtomicBool::new(false);
+static GLOBAL_BUF: std::sync::Mutex<Vec<u8>> = std::sync::Mutex::new(Vec::new());
+
+pub fn capture_global(on: bool) {
+    GLOBAL_BUF.lock().unwrap().clear();
+    GLOBAL_ON.store(on, std::sync::atomic::Ordering::SeqCst);
+}
+
+pub fn take_global() -> String {
+    String::from_utf8_lossy(&std::mem::take(&mut *GLOBAL_BUF.lock().unwrap())).into_owned()
+}
+
 #[derive(Clone, Copy)]
 pub struct SinkWriter;
 
 impl Write for SinkWriter {
     fn write(&mut self, data: &[u8]) -> std::io::Result<usize> {
+        if GLOBAL_ON.load(std::sync::atomic::Ordering::Relaxed) {
+            GLOBAL_BUF.lock().unwrap().extend_from_slice(data);
+        }
         SINK.with(|s| {
             let mut s = s.borrow_mut();
             s.bytes += data.len() as u64;
